@@ -125,6 +125,7 @@ def hide(e, rng, layers):
 
 def shard(ctx):
     rng = ctx.rng
+    rp.IDENTITY_WRAP = 0.03     # leaves and compound nodes spelled through an identity-like notation (definition = bare metavariable)
     D = Drivers()
     P = D.P
     global BINARY_NOTATIONS
